@@ -9,6 +9,7 @@ and `started_start_le`).  "Committed" = the block's BeginBlocker did not panic; 
 block is rolled back as a whole (`oog_propagates`). -/
 import OsmoVerif.Proofs.EpochsReach
 import OsmoVerif.Proofs.EpochsPrefix
+import OsmoVerif.Proofs.EpochsViews
 namespace OsmoVerif.Props.C17
 open OsmoVerif.Epochs
 
@@ -164,6 +165,56 @@ theorem stream_positions (m : Nat) (hm : 1 ≤ m) :
 /-- no signal in the history belongs to an unknown timer -/
 theorem signals_have_timers {s : State} {tr : List Signal} (h : Reach s tr) :
     ∀ sig ∈ tr, ∃ e ∈ s.timers, e.identifier = sig.timer := (reach_inv h).traceIds
+
+/-! ### the state visible to subscribers inside a signal -/
+
+/-- START-OF-EPOCH n IS SIGNALLED IN EPOCH n: a subscriber that queries the epochs keeper from inside
+`BeforeEpochStart(id, n)` reads the TICKED record of that timer (the tick is stored before the signal): epoch
+number `n`, counting started, start height = this block's height (0 blocks since the epoch start), and — for
+every timer on the grid, i.e. every reachable one (`grid`) — start time `startTime + (n−1)·duration`; for the
+first epoch that is the timer's start time ("each timer starts at its start time").  Holds for every
+invocation of every block, also of a block that later fails (out of gas). -/
+theorem state_visible_at_start_signal (s : State) (b : Block) (v : View) (hv : v ∈ blockViews s b)
+    (hk : v.call.kind = .epochStart) :
+    ∃ e ∈ s.timers, e.identifier = v.call.timer ∧ ticks b.t e = true ∧ v.own = pureStep b.t b.h e ∧
+      v.own.currentEpoch = v.call.epoch ∧ v.own.epochCountingStarted = true ∧
+      v.own.currentEpochStartHeight = b.h ∧ v.sinceStart = 0 ∧
+      (e.epochCountingStarted = false → v.call.epoch = 1 ∧ v.own.currentEpochStartTime = e.startTime) ∧
+      (e.epochCountingStarted = true → v.call.epoch = e.currentEpoch + 1 ∧
+          v.own.currentEpochStartTime = e.currentEpochStartTime + e.duration) ∧
+      (OnGrid e → v.own.currentEpochStartTime = e.startTime + (v.call.epoch - 1) * e.duration) := by
+  obtain ⟨e, he, subs', hc, hown, hsince⟩ := mem_viewsFrom b.t b.h b.script s.timers [] s.subs v hv
+  obtain ⟨hid, ht, hstart, _⟩ := processTimer_call_spec b.t b.h b.script e subs' v.call hc
+  obtain ⟨hinfo, hep⟩ := hstart hk
+  have hown' : v.own = pureStep b.t b.h e := by rw [hown, hk]; exact hinfo
+  refine ⟨e, he, hid.symm, ht, hown', ?_⟩
+  rw [hsince, hown', hep]
+  cases hst : e.epochCountingStarted
+  · refine ⟨rfl, ?_, ?_, ?_, ?_, ?_, ?_⟩ <;> simp [pureStep, ht, hst, OnGrid]
+  · refine ⟨rfl, ?_, ?_, ?_, ?_, ?_, ?_⟩ <;> simp [pureStep, ht, hst, OnGrid]
+    intro hg; rw [hg, Int.sub_mul, Int.one_mul]; omega
+
+/-- … over every history (`Reach`): the start time a subscriber reads inside `start n` is on the grid. -/
+theorem state_visible_at_start_signal_grid {s : State} {tr : List Signal} (h : Reach s tr) (b : Block) (v : View)
+    (hv : v ∈ blockViews s b) (hk : v.call.kind = .epochStart) :
+    ∃ e ∈ s.timers, e.identifier = v.call.timer ∧ v.own.currentEpoch = v.call.epoch ∧
+      v.own.epochCountingStarted = true ∧ v.own.currentEpochStartHeight = b.h ∧
+      v.own.currentEpochStartTime = e.startTime + (v.call.epoch - 1) * e.duration := by
+  obtain ⟨e, he, hid, _, _, h1, h2, h3, _, _, _, hg⟩ := state_visible_at_start_signal s b v hv hk
+  exact ⟨e, he, hid, h1, h2, h3, hg ((reach_inv h).grid e he)⟩
+
+/-- END-OF-EPOCH n IS SIGNALLED WHILE THE TIMER IS STILL IN EPOCH n: inside `AfterEpochEnd(id, n)` the stored
+record is the one from before the block (nothing of the tick is stored yet): epoch `n`, its start time and
+the height of the block in which epoch `n` started. -/
+theorem state_visible_at_end_signal (s : State) (b : Block) (v : View) (hv : v ∈ blockViews s b)
+    (hk : v.call.kind = .epochEnd) :
+    ∃ e ∈ s.timers, e.identifier = v.call.timer ∧ v.own = e ∧ e.currentEpoch = v.call.epoch ∧
+      e.epochCountingStarted = true ∧ v.sinceStart = b.h - e.currentEpochStartHeight := by
+  obtain ⟨e, he, subs', hc, hown, hsince⟩ := mem_viewsFrom b.t b.h b.script s.timers [] s.subs v hv
+  obtain ⟨hid, _, _, hend⟩ := processTimer_call_spec b.t b.h b.script e subs' v.call hc
+  obtain ⟨hst, hep⟩ := hend hk
+  have hown' : v.own = e := by rw [hown, hk]; rfl
+  exact ⟨e, he, hid.symm, hown', hep.symm, hst, by rw [hsince, hown']⟩
 
 /-! ### hook containment -/
 
@@ -334,6 +385,15 @@ example : ((stepBlock (stepBlock exS2 ⟨100, 6, exScript⟩) ⟨100000, 7, exSc
 example : (beginBlock (stepBlock exS2 ⟨100, 6, exScript⟩) ⟨111, 7, exScript⟩).subs = [[("a", "1")], []] := by decide
 example : (beginBlock (stepBlock exS2 ⟨100, 6, exScript⟩) ⟨111, 7, exScript⟩).calls.map (fun c => (c.kind, c.epoch, c.sub))
     = [(.epochEnd, 1, 0), (.epochEnd, 1, 1), (.epochStart, 2, 0), (.epochStart, 2, 1)] := by decide
+
+-- inside the signals of the tick 1 → 2 of "day": `end 1` sees epoch 1 (start 100, height 6), `start 2` sees
+-- epoch 2 (start 110 = 100 + 1·10, this block's height 7, 0 blocks since the start)
+example : (blockViews (stepBlock exS2 ⟨100, 6, exScript⟩) ⟨111, 7, exScript⟩).map
+    (fun v => (v.call.kind, v.call.epoch, v.call.sub, v.own.currentEpoch))
+    = [(.epochEnd, 1, 0, 1), (.epochEnd, 1, 1, 1), (.epochStart, 2, 0, 2), (.epochStart, 2, 1, 2)] := by decide
+example : (blockViews (stepBlock exS2 ⟨100, 6, exScript⟩) ⟨111, 7, exScript⟩).map
+    (fun v => (v.own.currentEpochStartTime, v.own.currentEpochStartHeight, v.sinceStart))
+    = [(100, 6, 1), (100, 6, 1), (110, 7, 0), (110, 7, 0)] := by decide
 
 -- out of gas: the block panics and is rolled back
 example : (beginBlock exS2 ⟨100, 6, exOogScript⟩).panicked = true := by decide
